@@ -18,12 +18,15 @@ def bounds(tier):
 
 
 def mk(n_rc, n_rd, n_other, allow, opt, source='string', order=None, T=60, with_replace=False, same_mid=False,
-       blank_roid=None, repeat=None, completed_rc=None):
+       blank_roid=None, repeat=None, completed_rc=None, structured=False):
     n = n_rc + n_rd + n_other
     P = {'n_rc': n_rc, 'n_rd': n_rd, 'n_other': n_other, 'allow': allow, 'opt': opt, 'source': source, 'order': order,
          'with_replace': with_replace, 'same_mid': same_mid, 'blank_roid': blank_roid, 'repeat': repeat, 'completed_rc': completed_rc}
     sym = [('r%d' % i, 'str') for i in range(n)]
     pre = str_pre([s for s, _ in sym])
+    if structured:
+        # running-order IDs with structure (SERVER;FOLDER;ID): two IDs that share a head or a tail are two IDs
+        pre = ["re.fullmatch('[AB];[12];?', r%d)" % i for i in range(n)]
     cid = 'C11/rc%d-rd%d-other%d/%s/%s/%s' % (n_rc, n_rd, n_other, 'allow-incomplete' if allow else 'complete-only',
                                              '-O' if opt else 'default', source)
     if with_replace:
@@ -36,10 +39,12 @@ def mk(n_rc, n_rd, n_other, allow, opt, source='string', order=None, T=60, with_
         cid += '/entry-%d-listed-twice' % repeat
     if order:
         cid += '/order-' + ''.join(map(str, order))
+    if structured:
+        cid += '/structured-roIDs'
     if completed_rc:
         cid += '/roCreate-' + '+'.join(map(str, completed_rc)) + '-is-saved-completed-output'
     return Cell(pid=PID, cid=cid, harness='h_collect:accept_cell', params=P, sym=sym, pre=pre, stubs=(),
-                timeout=T, cost=n, example={'r%d' % i: 'R' for i in range(n)})
+                timeout=T, cost=n, example={'r%d' % i: ('A;1' if structured else 'R') for i in range(n)})
 
 
 def cells(tier):
@@ -66,6 +71,9 @@ def cells(tier):
                 out.append(mk(n_rc, n_rd, n_other, allow, opt, T=T, completed_rc=comp))
     out.append(mk(2, 1, 1, False, False, source='file', T=T, completed_rc=[1], order=[3, 1, 0, 2]))
     out.append(mk(1, 1, 1, True, False, source='s3', T=T, completed_rc=[0]))
+    for (n_rc, n_rd, n_other) in ((1, 1, 0), (1, 1, 1), (1, 0, 1)):
+        for allow in (False, True):
+            out.append(mk(n_rc, n_rd, n_other, allow, False, T=T, structured=True))
     # the same string / path / key listed twice counts twice
     for src in ('string', 'file', 's3'):
         for (n_rc, n_rd, n_other), rep in (((1, 1, 0), 0), ((1, 1, 0), 1), ((1, 1, 1), 1), ((1, 0, 1), 0)):
